@@ -384,6 +384,12 @@ func (fr *Frame) havocMods(st *State, ms *modSet) {
 	}
 	// mutex hold counters are not havoc'd at loop heads: every iteration has to leave them as it
 	// found them (obligation loop[..]:lock-balance at the back edge)
+	// a monitor released somewhere in the havoc'd region may have been released before the head
+	for _, k := range x.u.heapOrder {
+		if strings.HasPrefix(k, "mutex:") && (ms.heapAll || ms.heapKeys[k]) && x.eng.monitors[k] != nil {
+			st.ghost["mrel:"+k] = Val{T: x.u.fresh("mrel", "Bool"), S: "Bool"}
+		}
+	}
 	if ms.heapAll {
 		for _, k := range x.u.heapOrder {
 			if strings.HasPrefix(k, "mutex:") {
